@@ -1,10 +1,17 @@
 (* C04 — a mutated view is indistinguishable from a fresh value with the same content.
-   Property theorems only.  Proved here for lists of composite elements (List.set / List.append)
-   and at the level of contents trees for every kind (CRep: set, append with expansion);
-   pop, packed elements, bit operations, vectors / containers / unions at view level are tied by
-   the correspondence (see evidence "partial"). *)
+   Property theorems only.  The representation relation `Repr t v n` (ReprProofs.v) says node n
+   represents value v through ANY contents tree (zero summaries / expanded zeros in any mixture).
+   C04_indistinguishable: every represented value, of every type, has the root, the encoding and
+   the reported length of the freshly constructed value.  C04_container_set / C04_vector_set /
+   C04_list_set / C04_list_append / C04_list_value_history: field assignment, element assignment
+   and append (composite elements), as steps and as arbitrary valid histories over values,
+   succeed and end in a representation of exactly the implied value — and compose through any
+   nesting depth because the element's new backing is itself only required to be a representation.
+   Pop, packed elements, bit operations and union change at view level are tied by the
+   correspondence (see evidence "partial"); at contents-tree level set / append are proved for
+   every kind. *)
 Require Import RM.Base RM.Gindex RM.Tree RM.Types RM.Spec RM.ModelViews RM.ModelCodec RM.ModelMut
-               RM.MerkleProofs RM.CRepProofs RM.ListProofs.
+               RM.MerkleProofs RM.CRepProofs RM.ListProofs RM.ReprProofs RM.MutProofs.
 Local Open Scope N_scope.
 
 (* contents-tree level: writing position i of a tree representing ns yields a tree representing
@@ -53,7 +60,52 @@ Theorem C04_fresh_is_representation : forall H e limit, basic_size e = None -> l
   exists n ns, mk H (TList e limit) (VSeq vs) = Ok n /\ Rep_list H e limit n ns /\ map (root H) ns = map (htr H e) vs.
 Proof. exact mk_list_rep. Qed.
 
+(* ---- value level ---- *)
+Theorem C04_indistinguishable : forall H src t v n, wf_ty t = true -> wf t v = true -> Repr H t v n ->
+  exists n0, mk H t v = Ok n0 /\ root H n = root H n0 /\ root H n = htr H t v /\
+             ser_impl H src t n = Ok (ser t v, lenN (ser t v)) /\ ser_impl H src t n0 = Ok (ser t v, lenN (ser t v)).
+Proof. exact repr_fresh. Qed.
+
+Theorem C04_constructed_is_representation : forall H t v n, wf_ty t = true -> wf t v = true -> mk H t v = Ok n -> Repr H t v n.
+Proof. intros H t v n. exact (mk_Repr H (fun _ => None) t v n). Qed.
+
+Theorem C04_container_set : forall H src fs vs n i x m, Repr H (TContainer fs) (VCont vs) n ->
+  (0 <= i < Z.of_nat (length fs))%Z -> Repr H (nth (Z.to_nat i) fs TBool) x m ->
+  exists n', view_set H src (TContainer fs) n i m = Ok n' /\ Repr H (TContainer fs) (VCont (upd (Z.to_nat i) x vs)) n'.
+Proof. exact container_set. Qed.
+
+Theorem C04_vector_set : forall H src e k vs n i x m, basic_size e = None -> Repr H (TVector e k) (VSeq vs) n -> lenN vs = k ->
+  (0 <= i < Z.of_N k)%Z -> Repr H e x m ->
+  exists n', view_set H src (TVector e k) n i m = Ok n' /\ Repr H (TVector e k) (VSeq (upd (Z.to_nat i) x vs)) n'.
+Proof. exact vector_set. Qed.
+
+Theorem C04_list_set : forall H src e limit, basic_size e = None -> limit < 2 ^ 64 -> forall vs n i x m,
+  Repr H (TList e limit) (VSeq vs) n -> lenN vs <= limit -> (0 <= i < Z.of_N (lenN vs))%Z -> Repr H e x m ->
+  exists n', view_set H src (TList e limit) n i m = Ok n' /\ Repr H (TList e limit) (VSeq (upd (Z.to_nat i) x vs)) n'.
+Proof. exact list_set_v. Qed.
+
+Theorem C04_list_append : forall H src e limit, basic_size e = None -> limit < 2 ^ 64 -> forall vs n x m,
+  Repr H (TList e limit) (VSeq vs) n -> lenN vs < limit -> Repr H e x m ->
+  exists n', list_append H src (TList e limit) n m = Ok n' /\ Repr H (TList e limit) (VSeq (vs ++ [x])) n'.
+Proof. exact list_append_v. Qed.
+
+(* any valid history of assignments and appends over VALUES ends in a representation of the implied
+   value, which is well-formed — hence (C04_indistinguishable) has the fresh value's root and encoding *)
+Theorem C04_list_value_history : forall H src e limit, basic_size e = None -> limit < 2 ^ 64 -> forall os vs n,
+  Repr H (TList e limit) (VSeq vs) n -> wf (TList e limit) (VSeq vs) = true -> vvalid_ops H e limit vs os ->
+  exists n', fold_left (fun acc o => do m <- acc; vapply_impl H src e limit m o) os (Ok n) = Ok n' /\
+             Repr H (TList e limit) (VSeq (fold_left vapply_spec os vs)) n' /\
+             wf (TList e limit) (VSeq (fold_left vapply_spec os vs)) = true.
+Proof. exact list_value_history. Qed.
+
 Print Assumptions C04_tree_set.
+Print Assumptions C04_indistinguishable.
+Print Assumptions C04_constructed_is_representation.
+Print Assumptions C04_container_set.
+Print Assumptions C04_vector_set.
+Print Assumptions C04_list_set.
+Print Assumptions C04_list_append.
+Print Assumptions C04_list_value_history.
 Print Assumptions C04_tree_append.
 Print Assumptions C04_root_of_representation.
 Print Assumptions C04_step.
